@@ -74,7 +74,7 @@ TSkip ==
   /\ UNCHANGED <<vars, cur, garbled, sdisc>>
 
 Silent ==
-  /\ \/ MWriteBegin \/ MFlushBegin \/ MFlushEnd \/ MStartKA \/ MRecv \/ MRecvNil \/ MReset
+  /\ \/ MWriteBegin \/ MFlushBegin \/ MFlushEnd \/ MStartKA \/ MRecv \/ MRecvNil \/ MReset \/ MClose
      \/ Tick \/ KPingBegin \/ KFlushBegin \/ KFlushEnd \/ KStop
      \/ ServerCancel \/ FinBegin \/ FinEnd
      \/ (sdisc /\ Disconnect)
